@@ -355,8 +355,8 @@ def check(run):
     from .util import type_narrowed_dead_params
     n = type_narrowed_dead_params(run, "R16.8", [f for f in run.project.all_functions() if f.module.name.startswith("mygrad.nnet")])
     run.count("type-tested parameters (nnet)", n)
-    r16_6(run)
-    r16_7(run)
-    r16_1(run)
-    r16_2(run)
-    r16_3(run)
+    run.do(r16_6)
+    run.do(r16_7)
+    run.do(r16_1)
+    run.do(r16_2)
+    run.do(r16_3)
